@@ -245,3 +245,53 @@ def gen(rng, tier):
             a, m = inv_pair(rng, bits)
             yield '%s %d %s %s' % (rng.choice(['inv', 'invtr']), bits, hx(a), hx(m))
             k += 1
+
+
+# ----------------------------------------------------------------------------------------------
+# thorough tier: the corpus and a structured sample again under --release (debug_assert!s and overflow checks
+# compiled out), judged against python big-integer arithmetic
+
+def py_spec(case):
+    t = case.split(' ')
+    op, bits = t[0], int(t[1])
+    v = [int(x, 16) for x in t[2:]]
+    m = v[-1]
+    if op == 'reduce':
+        return hx(v[0] % m if m else 0)
+    if op == 'add':
+        return hx((v[0] + v[1]) % m if m else 0)
+    if op == 'mul':
+        return hx((v[0] * v[1]) % m if m else 0)
+    if op == 'pow':
+        return hx(pow(v[0], v[1], m) if m else 0)
+    if op in ('inv', 'invtr'):
+        if bits == 0 or m < 2 or gcd(v[0], m) != 1:
+            return 'none'
+        return 'some ' + hx(pow(v[0], -1, m))
+    return None
+
+
+def extra_checks(tier, rng, findings):
+    if tier != 'thorough':
+        return {}
+    import os
+    import vlib
+    binpath, secs = vlib.build_harness(BIN, release=True)
+    cases = []
+    cpath = os.path.join(vlib.ROOT, 'corpus', 'C10.cases')
+    if os.path.exists(cpath):
+        cases += [l.strip() for l in open(cpath) if l.strip() and not l.startswith('#')]
+    for k, c in enumerate(gen(rng, 'quick')):
+        cases.append(c)
+        if k > 60000:
+            break
+    impl, _ = vlib.run_impl(binpath, cases, timeout=1800)
+    viol = []
+    for c, i in zip(cases, impl):
+        want = py_spec(c)
+        got = i.split(' | ')[0]
+        if got != want:
+            viol.append(('impl-violation', c, i + ' (release profile)', 'skip', want))
+    return {'violations': viol[:50],
+            'coverage': {'release_profile_rerun': {'cases': len(cases), 'mismatches': len(viol), 'build_s': round(secs, 1),
+                                                   'oracle': 'python big integers'}}}
